@@ -84,9 +84,9 @@ Qed.
 (* the pieces of the view *)
 Lemma wfb_tooltip : forall css s, wfb (tooltip_span css s) = true.
 Proof. reflexivity. Qed.
-Lemma wfb_summary : forall o css sc name path v, wfb (summary_el o css sc name path v) = true.
+Lemma wfb_summary : forall o css sc title name path v, wfb (summary_el o css sc title name path v) = true.
 Proof.
-  intros o css [[a|] [b|]] name path v; unfold summary_el;
+  intros o css [[a|] [b|]] title name path v; unfold summary_el;
   destruct name; destruct (o_key_tooltip o); destruct (o_summary_tooltip o); reflexivity.
 Qed.
 Lemma wfb_key_cell : forall o k p, forallb wfb (key_cell o k p) = true.
@@ -121,10 +121,10 @@ Proof.
   destruct Hh as [<-|[]]. destruct (assoc_key_in _ _ _ E) as (k' & Hin). eapply Hr; eauto.
 Qed.
 
-Theorem tv_wfb : forall o v css sc name path cl incl excl, wfb (tv o css sc name path cl incl excl v) = true.
+Theorem tv_wfb : forall o v css sc title name path cl incl excl, wfb (tv o css sc title name path cl incl excl v) = true.
 Proof.
-  intros o. induction v as [lk tn cn raw rep fmt|sq tn cn fmt items IH] using pv_ind'; intros css sc name path cl incl excl.
-  - cbn [tv]. destruct (needs_summary o name _).
+  intros o. induction v as [lk tn cn raw rep fmt|sq tn cn fmt items IH] using pv_ind'; intros css sc title name path cl incl excl.
+  - cbn [tv]. destruct (needs_summary_t o title name _).
     + cbn [wfb forallb]. rewrite wfb_summary.
       destruct (should_collapse o name path cl _); reflexivity.
     + reflexivity.
@@ -149,7 +149,7 @@ Proof.
                              | _ :: _ => skids ++ match lkids with [] => [] | _ :: _ => [El s_table [] [] lkids] end
                              end) = true).
     { clear -Hk. destruct (skids ++ _); [reflexivity|exact Hk]. }
-    destruct (needs_summary o name _).
+    destruct (needs_summary_t o title name _).
     + cbn [wfb forallb]. rewrite wfb_summary.
       cbn [wfb forallb] in Hc |- *. rewrite Hc.
       destruct (should_collapse o name path cl _); reflexivity.
@@ -167,7 +167,7 @@ Theorem tree_view_no_injection : forall o v,
 Proof.
   intros o v. exists (normalize [tree_view o v]). split; [apply render_parse, tree_view_names_ok|].
   intros n Hn.
-  destruct (wfb_vocab _ (tv_wfb o v (o_css o) (o_summary_color o) (o_name o) (o_root_path o) (o_collapse o) (o_include o) (o_exclude o))) as (H1 & H2 & H3).
+  destruct (wfb_vocab _ (tv_wfb o v (o_css o) (o_summary_color o) (o_title o) (o_name o) (o_root_path o) (o_collapse o) (o_include o) (o_exclude o))) as (H1 & H2 & H3).
   fold (tree_view o v) in H1, H2, H3.
   repeat split; intros x Hx.
   - apply H1. assert (E := collect_normalize (fun tag _ _ => [tag]) [tree_view o v]).
@@ -240,8 +240,8 @@ Section Present.
   Definition child_node (label : bool) (path : list key) (cl' : option Z) (k : key) (c : pv) : hnode :=
     if label
     then El s_tr [] [] [El s_td [] [] (key_cell o k (path ++ [k]));
-                        El s_td [] [] [hl_wrap o (path ++ [k]) (tv o [] (None, None) None (path ++ [k]) cl' None None c)]]
-    else hl_wrap o (path ++ [k]) (tv o [] (None, None) (Some k) (path ++ [k]) cl' None None c).
+                        El s_td [] [] [hl_wrap o (path ++ [k]) (tv o [] (None, None) None None (path ++ [k]) cl' None None c)]]
+    else hl_wrap o (path ++ [k]) (tv o [] (None, None) None (Some k) (path ++ [k]) cl' None None c).
 
   Lemma in_order_at : forall path incl excl k (present : list key),
     In k present -> key_included_at o path incl excl k = true -> In k (order_at o path incl excl present).
@@ -259,12 +259,12 @@ Section Present.
   Qed.
 
   (* an included child's node is among the children of the complex-value element, so its texts are texts of the parent *)
-  Lemma child_texts : forall sq tn cn fmt items k c css sc name path cl incl excl x,
+  Lemma child_texts : forall sq tn cn fmt items k c css sc title name path cl incl excl x,
     assoc_key k items = Some c -> key_included_at o path incl excl k = true ->
     In x (texts_of (child_node (is_label_at o sq path k) path (option_map (fun n => (n - 1)%Z) cl) k c)) ->
-    In x (texts_of (tv o css sc name path cl incl excl (PNode sq tn cn fmt items))).
+    In x (texts_of (tv o css sc title name path cl incl excl (PNode sq tn cn fmt items))).
   Proof.
-    intros sq tn cn fmt items k c css sc name path cl incl excl x Ha Hi Hx.
+    intros sq tn cn fmt items k c css sc title name path cl incl excl x Ha Hi Hx.
     cbn [tv].
     set (cl' := option_map _ cl) in *.
     set (rendered := map _ items).
@@ -274,8 +274,8 @@ Section Present.
     { subst rendered. unfold child_node.
       exact (assoc_key_map (fun kc => if is_label_at o sq path (fst kc)
                  then El s_tr [] [] [El s_td [] [] (key_cell o (fst kc) (path ++ [fst kc]));
-                                     El s_td [] [] [hl_wrap o (path ++ [fst kc]) (tv o [] (None, None) None (path ++ [fst kc]) cl' None None (snd kc))]]
-                 else hl_wrap o (path ++ [fst kc]) (tv o [] (None, None) (Some (fst kc)) (path ++ [fst kc]) cl' None None (snd kc))) k items c Ha). }
+                                     El s_td [] [] [hl_wrap o (path ++ [fst kc]) (tv o [] (None, None) None None (path ++ [fst kc]) cl' None None (snd kc))]]
+                 else hl_wrap o (path ++ [fst kc]) (tv o [] (None, None) None (Some (fst kc)) (path ++ [fst kc]) cl' None None (snd kc))) k items c Ha). }
     assert (Ho : In k order) by (apply in_order_at; [eapply assoc_key_present; eauto|exact Hi]).
     set (skids := pick (filter _ order)).
     set (lkids := pick (filter (is_label_at o sq path) order)).
@@ -294,7 +294,7 @@ Section Present.
   Qed.
 
   Lemma child_node_texts : forall (label : bool) path cl' k c x,
-    In x (texts_of (tv o [] (None, None) (if label then @None key else Some k) (path ++ [k]) cl' None None c)) ->
+    In x (texts_of (tv o [] (None, None) None (if label then @None key else Some k) (path ++ [k]) cl' None None c)) ->
     In x (texts_of (child_node label path cl' k c)).
   Proof.
     intros label path cl' k c x H. unfold child_node. destruct label; [|now rewrite texts_hl_wrap].
@@ -303,28 +303,28 @@ Section Present.
   Qed.
 
   (* texts of a sub-value whose path passes the filters are texts of the value *)
-  Lemma sub_texts : forall v p w, sub_at v p w -> forall css sc name path cl incl excl,
+  Lemma sub_texts : forall v p w, sub_at v p w -> forall css sc title name path cl incl excl,
     path_shown o path incl excl p = true ->
-    exists css' sc' name' cl' incl' excl',
+    exists css' sc' title' name' cl' incl' excl',
       (p = [] -> incl' = incl /\ excl' = excl) /\ (p <> [] -> incl' = None /\ excl' = None) /\
-      forall x, In x (texts_of (tv o css' sc' name' (path ++ p) cl' incl' excl' w)) -> In x (texts_of (tv o css sc name path cl incl excl v)).
+      forall x, In x (texts_of (tv o css' sc' title' name' (path ++ p) cl' incl' excl' w)) -> In x (texts_of (tv o css sc title name path cl incl excl v)).
   Proof.
-    induction 1 as [v|sq tn cn fmt items k c p w Ha Hs IH]; intros css sc name path cl incl excl Hp.
-    - exists css, sc, name, cl, incl, excl. rewrite app_nil_r. split; [auto|]. split; [intros H; now elim H|auto].
+    induction 1 as [v|sq tn cn fmt items k c p w Ha Hs IH]; intros css sc title name path cl incl excl Hp.
+    - exists css, sc, title, name, cl, incl, excl. rewrite app_nil_r. split; [auto|]. split; [intros H; now elim H|auto].
     - cbn [path_shown] in Hp. apply andb_prop in Hp. destruct Hp as [Hk Hp].
-      destruct (IH [] (None, None) (if is_label_at o sq path k then @None key else Some k) (path ++ [k])
-                   (option_map (fun n => (n - 1)%Z) cl) None None Hp) as (s' & d' & n' & c' & i' & e' & H0 & H1 & Hin).
+      destruct (IH [] (None, None) None (if is_label_at o sq path k then @None key else Some k) (path ++ [k])
+                   (option_map (fun n => (n - 1)%Z) cl) None None Hp) as (s' & d' & t' & n' & c' & i' & e' & H0 & H1 & Hin).
       assert (E : i' = None /\ e' = None).
       { destruct p as [|k0 p0]; [apply H0; reflexivity|apply H1; discriminate]. }
       destruct E as [-> ->].
-      exists s', d', n', c', None, None. split; [discriminate|]. split; [auto|].
+      exists s', d', t', n', c', None, None. split; [discriminate|]. split; [auto|].
       intros x Hx. eapply child_texts; [exact Ha|exact Hk|]. apply child_node_texts. apply Hin.
       rewrite <- app_assoc. exact Hx.
   Qed.
 
   (* leaves *)
-  Lemma leaf_text_in : forall lk tn cn raw rep fmt css sc name path cl incl excl,
-    In (leaf_text o lk raw rep) (texts_of (tv o css sc name path cl incl excl (PLeaf lk tn cn raw rep fmt))).
+  Lemma leaf_text_in : forall lk tn cn raw rep fmt css sc title name path cl incl excl,
+    In (leaf_text o lk raw rep) (texts_of (tv o css sc title name path cl incl excl (PLeaf lk tn cn raw rep fmt))).
   Proof. intros. cbn [tv]. apply texts_wrap. rewrite texts_el. now left. Qed.
 
   Theorem all_leaves_present : forall v p lk tn cn raw rep fmt,
@@ -332,24 +332,24 @@ Section Present.
     In (leaf_text o lk raw rep) (texts_of (tree_view o v)).
   Proof.
     intros v p lk tn cn raw rep fmt Hs Hp.
-    destruct (sub_texts v p _ Hs (o_css o) (o_summary_color o) (o_name o) (o_root_path o) (o_collapse o) (o_include o) (o_exclude o) Hp)
-      as (s' & d' & n' & c' & i' & e' & _ & _ & Hin).
+    destruct (sub_texts v p _ Hs (o_css o) (o_summary_color o) (o_title o) (o_name o) (o_root_path o) (o_collapse o) (o_include o) (o_exclude o) Hp)
+      as (s' & d' & t' & n' & c' & i' & e' & _ & _ & Hin).
     apply Hin. apply leaf_text_in.
   Qed.
 
   (* keys *)
-  Lemma key_text_in : forall sq tn cn fmt items k c css sc name path cl incl excl t,
+  Lemma key_text_in : forall sq tn cn fmt items k c css sc title name path cl incl excl t,
     assoc_key k items = Some c -> key_included_at o path incl excl k = true -> key_shown_text o sq path k c = Some t ->
-    In t (texts_of (tv o css sc name path cl incl excl (PNode sq tn cn fmt items))).
+    In t (texts_of (tv o css sc title name path cl incl excl (PNode sq tn cn fmt items))).
   Proof.
-    intros sq tn cn fmt items k c css sc name path cl incl excl t Ha Hi Ht.
+    intros sq tn cn fmt items k c css sc title name path cl incl excl t Ha Hi Ht.
     eapply child_texts; [exact Ha|exact Hi|].
     unfold key_shown_text in Ht. unfold child_node.
     destruct (is_label_at o sq path k).
     - inv Ht. rewrite texts_el. cbn [flat_map]. apply in_or_app. left. rewrite texts_el.
       unfold key_cell. cbn [flat_map]. apply in_or_app. left. rewrite texts_el. now left.
     - destruct (needs_summary o (Some k) c) eqn:En; [|discriminate]. inv Ht. rewrite texts_hl_wrap.
-      destruct c as [lk tn' cn' raw rep fmt'|sq' tn' cn' fmt' items']; cbn [tv]; rewrite En;
+      destruct c as [lk tn' cn' raw rep fmt'|sq' tn' cn' fmt' items']; cbn [tv]; unfold needs_summary_t; rewrite En;
         rewrite texts_el; cbn [flat_map]; apply in_or_app; left;
         unfold summary_el; rewrite texts_el; cbn [flat_map app]; apply in_or_app; left;
         rewrite texts_el; now left.
@@ -373,8 +373,8 @@ Section Present.
   Proof.
     intros v p sq tn cn fmt items k c t Hs Ha Hp Ht.
     destruct (path_shown_app _ _ _ _ _ Hp) as [Hp' Hk].
-    destruct (sub_texts v p _ Hs (o_css o) (o_summary_color o) (o_name o) (o_root_path o) (o_collapse o) (o_include o) (o_exclude o) Hp')
-      as (s' & d' & n' & c' & i' & e' & H0 & H1 & Hin).
+    destruct (sub_texts v p _ Hs (o_css o) (o_summary_color o) (o_title o) (o_name o) (o_root_path o) (o_collapse o) (o_include o) (o_exclude o) Hp')
+      as (s' & d' & t' & n' & c' & i' & e' & H0 & H1 & Hin).
     apply Hin. eapply key_text_in; eauto.
     destruct p as [|k0 p0].
     - destruct (H0 eq_refl) as [-> ->]. exact Hk.
@@ -399,7 +399,7 @@ Definition ex_leaf : pv := PLeaf LStr s_str s_str s_k_i s_k_i s_k_i.
 Definition ex_list : pv := PNode true s_k s_k [] [(KInt 0, ex_leaf)].
 Definition ex_value : pv := PNode false s_k s_k [] [(ex_key, ex_list)].
 Definition ex_opts : opts := mkOpts None [] None true 80 true true false (Some [ex_key]) (Some []) (Some 1%Z) [] [s_k] (Some s_k, None) (None, Some s_k)
-  [[ex_key]] [] (Some [[ex_key; KInt 0]]) None (Some []) None None.
+  [[ex_key]] [] (Some [[ex_key; KInt 0]]) None (Some []) None None (Some s_k).
 Example ex_sub : sub_at ex_value [ex_key; KInt 0] ex_leaf.
 Proof. repeat (econstructor; try reflexivity). Qed.
 Example ex_included : path_included ex_opts [ex_key; KInt 0] = true.
@@ -414,8 +414,8 @@ Proof. split; vm_compute; reflexivity. Qed.
 
 (* ------------------------------------------------------------------------------------------ *)
 (* the same, for the document a parser sees: the tree view never puts two text nodes next to each other *)
-Lemma tv_not_text : forall o v css sc name path cl incl excl, is_text (tv o css sc name path cl incl excl v) = false.
-Proof. intros o v css sc name path cl incl excl. destruct v; cbn [tv]; destruct (needs_summary o name _); reflexivity. Qed.
+Lemma tv_not_text : forall o v css sc title name path cl incl excl, is_text (tv o css sc title name path cl incl excl v) = false.
+Proof. intros o v css sc title name path cl incl excl. destruct v; cbn [tv]; destruct (needs_summary_t o title name _); reflexivity. Qed.
 
 Lemma no_adjacent_no_text : forall l, forallb (fun x => negb (is_text x)) l = true -> no_adjacent_texts l = true.
 Proof.
@@ -429,9 +429,9 @@ Lemma sepb_el_kids : forall tag opts attrs kids,
   forallb sepb kids = true -> forallb (fun x => negb (is_text x)) kids = true -> sepb (El tag opts attrs kids) = true.
 Proof. intros tag opts attrs kids H1 H2. cbn [sepb]. now rewrite (no_adjacent_no_text _ H2), H1. Qed.
 
-Lemma sepb_summary : forall o css sc name path v, sepb (summary_el o css sc name path v) = true.
+Lemma sepb_summary : forall o css sc title name path v, sepb (summary_el o css sc title name path v) = true.
 Proof.
-  intros o css [[a|] [b|]] name path v; unfold summary_el;
+  intros o css [[a|] [b|]] title name path v; unfold summary_el;
   destruct name; destruct (o_key_tooltip o); destruct (o_summary_tooltip o); reflexivity.
 Qed.
 Lemma sepb_key_cell : forall o k p, forallb sepb (key_cell o k p) = true /\ forallb (fun x => negb (is_text x)) (key_cell o k p) = true.
@@ -447,10 +447,10 @@ Proof.
   split; [|reflexivity]. apply sepb_el_kids; cbn [forallb]; [now rewrite H1|now rewrite H2].
 Qed.
 
-Theorem tv_sepb : forall o v css sc name path cl incl excl, sepb (tv o css sc name path cl incl excl v) = true.
+Theorem tv_sepb : forall o v css sc title name path cl incl excl, sepb (tv o css sc title name path cl incl excl v) = true.
 Proof.
-  intros o. induction v as [lk tn cn raw rep fmt|sq tn cn fmt items IH] using pv_ind'; intros css sc name path cl incl excl.
-  - cbn [tv]. destruct (needs_summary o name _).
+  intros o. induction v as [lk tn cn raw rep fmt|sq tn cn fmt items IH] using pv_ind'; intros css sc title name path cl incl excl.
+  - cbn [tv]. destruct (needs_summary_t o title name _).
     + apply sepb_el_kids; [|reflexivity]. cbn [forallb]. now rewrite sepb_summary.
     + reflexivity.
   - cbn [tv].
@@ -462,7 +462,7 @@ Proof.
       destruct (is_label_at o sq path k).
       - split; [|reflexivity].
         destruct (sepb_key_cell o k (path ++ [k])) as [E1 E2].
-        destruct (sepb_hl_wrap o (path ++ [k]) _ (IH [] (None, None) None (path ++ [k]) (option_map (fun n => (n - 1)%Z) cl) None None) (tv_not_text _ _ _ _ _ _ _ _ _)) as [W1 W2].
+        destruct (sepb_hl_wrap o (path ++ [k]) _ (IH [] (None, None) None None (path ++ [k]) (option_map (fun n => (n - 1)%Z) cl) None None) (tv_not_text _ _ _ _ _ _ _ _ _ _)) as [W1 W2].
         apply sepb_el_kids; [|reflexivity]. cbn [forallb].
         rewrite (sepb_el_kids s_td [] [] _ E1 E2). rewrite (sepb_el_kids s_td [] [] [_]); [reflexivity| |]; cbn [forallb]; [now rewrite W1|now rewrite W2].
       - apply sepb_hl_wrap; [apply IH|apply tv_not_text]. }
@@ -485,7 +485,7 @@ Proof.
                              | _ :: _ => skids ++ match lkids with [] => [] | _ :: _ => [El s_table [] [] lkids] end
                              end)) = true).
     { intros attrs. clear -Hk1 Hk2. destruct (skids ++ _); [reflexivity|]. apply sepb_el_kids; assumption. }
-    destruct (needs_summary o name _).
+    destruct (needs_summary_t o title name _).
     + apply sepb_el_kids; [|reflexivity]. cbn [forallb]. now rewrite sepb_summary, Hc.
     + apply Hc.
 Qed.
